@@ -105,6 +105,17 @@ SuppCat == {E("supp", <<1, t, "">>, x) : t \in {"sci", "sfi", "rev", "sp", "expi
            {E("supp", <<1, "sp.windowid", "res">>, x) : x \in {"zero", "tip"}} \cup
            {E("supp", <<2, "txs", "">>, x) : x \in {"long", "expiring-extra"}}
 
+\* ---- supplement x block shape x era ---------------------------------------------------------------------------------------------
+\* ValidateBlock is handed (block, supplement); nothing says the supplement fits the block.  Block shapes: the block as it is; with a
+\* v1 transaction appended (one that an earlier block of the history carried, else a minimal one) -- in the era after RequireHeight
+\* that is a v1 transaction where none is allowed; with a v2 transaction appended (before AllowHeight: where none is allowed).
+\* Supplement variants, relative to the honest supplement of the block: honest (one entry per v1 transaction), empty (what the era
+\* after RequireHeight requires), one entry short / long, entries permuted, every entry's lists emptied / cut by one / one too long.
+\* The eras come with the network shapes (before AllowHeight, transition, at and after RequireHeight).
+SuppEraCat == {[fam |-> "suppera", ver |-> 0, t |-> shape, need |-> "", x |-> v, t2 |-> "", need2 |-> "", x2 |-> ""] :
+                  shape \in {"block-as-is", "v1-transaction-appended", "v2-transaction-appended"},
+                  v \in {"honest", "empty", "short", "long", "permuted", "lists-emptied", "lists-truncated", "lists-overlong"}}
+
 \* ---- spend policies, resolutions, eras --------------------------------------------------------
 \* DECODABILITY.  The property quantifies over DECODABLE transactions and blocks: every value a mutant carries must be one that
 \* some decoder of core (DecodeFrom or UnmarshalJSON) hands over.  Plain numbers, byte strings, lists and list lengths always are.
@@ -154,9 +165,18 @@ ShapeCat == {E("weight", <<v, "arbitrary-data-filler", "">>, x) : v \in {1, 2}, 
 
 \* ---- an id of the wrong kind: a v1 transaction appended to the block whose parent id is the id of an element of ANOTHER kind
 \* that an earlier transaction of the same block created (ids of all kinds share one 32-byte space) ---------------------------------
-ConfuseCat == {E("confuse", <<1, t, "">>, x) : t \in {"rev", "res", "sci", "sfi"}, x \in {"siacoin-output", "siafund-output", "contract"}}
+\* v2: an "ephemeral" parent (unassigned leaf index) is looked up by its id among what the block has recorded so far.  The input
+\* names the id of an element of another kind recorded earlier in the block: an attestation (a transaction of nothing but n+1
+\* attestations is placed before the spend; "@j" = the attestation at index j, where n is the number of siacoin (siafund) records
+\* the block has made by then: below, at and above that count), a siafund / siacoin output, a contract created or revised in the
+\* block.  The network shapes put such blocks before and after EphemeralOutputHeight.
+Confuse2Cat == {E("confuse", <<2, t, "">>, x) : t \in {"sci", "sfi"},
+                   x \in {"attestation@0", "attestation@n-1", "attestation@n", "attestation@n+1", "attestation@n+8", "siafund-output", "siacoin-output", "contract", "revised-contract"}}
+               \ {E("confuse", <<2, "sci", "">>, "siacoin-output"), E("confuse", <<2, "sfi", "">>, "siafund-output")}
+Confuse1Cat == {E("confuse", <<1, t, "">>, x) : t \in {"rev", "res", "sci", "sfi"}, x \in {"siacoin-output", "siafund-output", "contract"}}
               \ {E("confuse", <<1, "sci", "">>, "siacoin-output"), E("confuse", <<1, "sfi", "">>, "siafund-output"),
                  E("confuse", <<1, "rev", "">>, "contract"), E("confuse", <<1, "res", "">>, "contract")}
+ConfuseCat == Confuse1Cat \cup Confuse2Cat
 
 \* ---- life cycle: a contract FORMED with an extreme file size (a valid formation), then storage proofs of every length for it
 \* once its window is open, then its end (expiration); ver 1 and 2 ------------------------------------------------------------
@@ -170,7 +190,7 @@ DecodedCat == {E("decoded", <<2, "json", "">>, x) : x \in {"{\"siacoinInputs\":[
               {E("decoded", <<1, "json", "">>, x) : x \in {"{\"siacoinInputs\":[{}]}", "{\"siafundInputs\":[{}]}", "{\"signatures\":[{}]}", "{\"fileContractRevisions\":[{}]}", "{\"storageProofs\":[{}]}",
                    "{\"fileContracts\":[{}]}", "{\"minerFees\":[\"0\"]}", "{\"arbitraryData\":[null]}", "{\"signatures\":[{\"coveredFields\":{\"signatures\":[0,0,1]}}]}"}}
 
-Catalogue == WrapCat \cup ComplementCat \cup LifecycleCat \cup ConfuseCat \cup DecodedCat \cup CurSingles \cup CurPairs \cup ProofCat \cup CoveredCat \cup SigCat \cup ParentCat \cup SuppCat \cup PolicyCat \cup ResCat \cup EraCat \cup SizeCat \cup WinCat \cup ShapeCat
+Catalogue == SuppEraCat \cup WrapCat \cup ComplementCat \cup LifecycleCat \cup ConfuseCat \cup DecodedCat \cup CurSingles \cup CurPairs \cup ProofCat \cup CoveredCat \cup SigCat \cup ParentCat \cup SuppCat \cup PolicyCat \cup ResCat \cup EraCat \cup SizeCat \cup WinCat \cup ShapeCat
 Families == {e.fam : e \in Catalogue}
 
 VARIABLE step
